@@ -42,7 +42,15 @@ def main():
             if os.path.exists(bak):
                 shutil.move(bak, ev)
         out = r.stdout + r.stderr
+        # attribution: every concrete input the mutated run reported must PASS on the clean tree (otherwise the alarm is the clean tree's, not the change's)
+        clean_fail = []
+        for rp in re.findall(r"^VIOLATION property=\S+ replay=(\S+)", out, re.M)[:6]:
+            rr = sh("./check %s --replay %s" % (prop, rp), cwd=ROOT, timeout=600)
+            if "STILL FAILS" in rr.stdout:
+                clean_fail.append(rp)
         stages = []
+        if clean_fail:
+            stages.append("ATTENTION: %d reported input(s) fail on the CLEAN tree too (%s)" % (len(clean_fail), clean_fail[0]))
         if re.search(r"proof stage: BROKEN", out):
             stages.append("proof obligation (regenerated table / theorem no longer checks)")
         m = re.search(r"correspondence: .* (\d+) disagreements", out)
@@ -53,10 +61,15 @@ def main():
             stages.append("failing-input search (%s)" % ", ".join(sorted(set(fails))[:3]))
         viol = re.findall(r"^VIOLATION .*$", out, re.M)
         verdict = "detected" if (r.returncode == 1 and viol) else ("NOT detected (exit %d)" % r.returncode)
+        if clean_fail and len(clean_fail) == len(re.findall(r"^VIOLATION property=\S+ replay=(\S+)", out, re.M)[:6]):
+            verdict = "NOT attributable (every reported input fails on the clean tree)"
         if viol and all(v.endswith("no-failing-input-found") for v in viol):
             verdict += " (no concrete input)"
         meta_p = os.path.join(d, "meta.json")
         meta = json.load(open(meta_p)) if os.path.exists(meta_p) else {}
+        if meta.get("superseded"):
+            # a later fix: commit made this change harmless (its demo passes on HEAD + patch): the check must stay quiet
+            verdict = "superseded (%s): check %s" % (meta["superseded"], "quiet, as it must be" if r.returncode == 0 else "alarms (exit %d)" % r.returncode)
         meta["detected_by"] = {"check": "./check %s quick" % prop, "verdict": verdict, "stages": stages, "violation_lines": len(viol)}
         json.dump(meta, open(meta_p, "w"), indent=1)
         rows.append((sid, verdict, "; ".join(stages)))
